@@ -73,8 +73,25 @@ def chunk_ids_of(steps):
     return ids
 
 
+COMP_SUFFIX = {"gzip": ".gz", "parallelgzip": ".gz", "lz4": ".lz4", "zstandard": ".zst", "brotli": ".br", "bzip2": ".bz2", "parallelbzip2": ".bz2"}
+ENC_SUFFIX = {"age": ".age", "pgp": ".pgp"}
+
+
+def suffix_names(rng, comps, cfg):
+    """Names that end in exactly the suffix the configured pipeline appends to (and strips from) regular files."""
+    cs, es = COMP_SUFFIX.get(cfg["comp"], ""), ENC_SUFFIX.get(cfg["enc"], "")
+    vals = ["x" + cs + es, "x", "y" + (es or cs), "x" + cs + es + cs + es]
+    rng.shuffle(vals)
+    comps = sorted(comps)
+    return {c: vals[i % len(vals)] + ("" if i < len(vals) else str(i)) for i, c in enumerate(comps)}
+
+
 def concretise(rng, steps, pool=None, plain_bias=0.6, rs=None, allow_pgp=True, small=False):
     cfg = config(rng, plain_bias, rs, allow_pgp)
+    if pool is None and (cfg["comp"] or cfg["enc"]) and rng.random() < 0.2:
+        pool = "suffixy"
     nm, pool = names(rng, comps_of(steps), pool)
+    if pool == "suffixy" and (cfg["comp"] or cfg["enc"]):
+        nm = suffix_names(rng, comps_of(steps), cfg)
     conc = {"names": nm, "chunks": chunks(rng, chunk_ids_of(steps) | {"c1", "c2", "c3"}, cfg["rs"], small)}
     return cfg, conc, pool
